@@ -7,9 +7,14 @@ import (
 // notOnlyComponentOrOptions: a mismatch that is not exclusively about
 // component destinations (C18) or the unknown-item lists (C16).
 func roundTripRelevant(p *Profile, m Mismatch) bool {
+	// the accumulated destinations are subject to the recorded findings of
+	// C18 (named deviations): not reported again here
+	if kfs, ok := m.Rec["kf"].([]interface{}); ok && len(kfs) > 0 {
+		return false
+	}
 	ps := p.props(m)
 	for k := range ps {
-		if k != "C18" && k != "C16" {
+		if k != "C16" {
 			return true
 		}
 	}
